@@ -33,8 +33,8 @@ UniWsByte  == {9, 10, 11, 12, 13, 32, 133, 160}  \* (b as char).is_whitespace()
 ToLower(c) == IF c \in Upper THEN c + 32 ELSE c
 LowerSeq(s) == [i \in 1..Len(s) |-> ToLower(s[i])]
 
-Min(a, b) == IF a < b THEN a ELSE b
-Max(a, b) == IF a > b THEN a ELSE b
+MinOf(a, b) == IF a < b THEN a ELSE b
+MaxOf(a, b) == IF a > b THEN a ELSE b
 
 Drop(s, n) == SubSeq(s, n + 1, Len(s))        \* s without its first n items
 Take(s, n) == SubSeq(s, 1, n)
@@ -105,7 +105,7 @@ Flatten(ss) == IF ss = <<>> THEN <<>> ELSE Head(ss) \o Flatten(Tail(ss))
 
 \* sequences as sets / filters
 SelectSeqIdx(s, Test(_)) == SelectSeq([i \in 1..Len(s) |-> i], Test)
-Range(s) == {s[i] : i \in 1..Len(s)}
+RangeOf(s) == {s[i] : i \in 1..Len(s)}
 
 (***************************************************************************)
 (* Decimal digit strings as numbers, no machine arithmetic: a digit run of *)
